@@ -39,7 +39,13 @@ func compare(file []byte, tracks []mp4build.Track, lay mp4build.ProgLayout, trut
 	if m.MovieTimescale != lay.MovieTimescale {
 		return fmt.Errorf("movie timescale %d != %d", m.MovieTimescale, lay.MovieTimescale)
 	}
-	if m.NrMdat != 1 || m.MdatPayloadStart != truth.MdatPayloadStart || m.MdatPayloadSize != truth.MdatPayloadSize || m.MdatStart != truth.MdatStart {
+	nrMdat := 1
+	for _, k := range append(append([]string{}, lay.Lead...), lay.Trail...) {
+		if k == "mdat0" {
+			nrMdat++
+		}
+	}
+	if m.NrMdat != nrMdat || m.MdatPayloadStart != truth.MdatPayloadStart || m.MdatPayloadSize != truth.MdatPayloadSize || m.MdatStart != truth.MdatStart {
 		return fmt.Errorf("mdat: parsed %d/%d/%d, truth %d/%d/%d", m.MdatStart, m.MdatPayloadStart, m.MdatPayloadSize,
 			truth.MdatStart, truth.MdatPayloadStart, truth.MdatPayloadSize)
 	}
@@ -47,11 +53,26 @@ func compare(file []byte, tracks []mp4build.Track, lay mp4build.ProgLayout, trut
 	if lay.MdatFirst {
 		wantOrder = []string{"ftyp", "mdat", "moov"}
 	}
+	extraType := func(k string) string {
+		if k == "mdat0" {
+			return "mdat"
+		}
+		return k
+	}
+	order := []string{wantOrder[0]}
+	for _, k := range lay.Lead {
+		order = append(order, extraType(k))
+	}
+	order = append(order, wantOrder[1:]...)
+	for _, k := range lay.Trail {
+		order = append(order, extraType(k))
+	}
+	wantOrder = order
 	for i, b := range m.Top {
-		if i >= 3 || b.Type != wantOrder[i] {
+		if i >= len(wantOrder) || b.Type != wantOrder[i] {
 			return fmt.Errorf("top-level box %d is %q", i, b.Type)
 		}
-		if b.Type == "mdat" && (b.HdrLen == 16) != lay.MdatLarge {
+		if b.Type == "mdat" && b.Size > b.HdrLen && (b.HdrLen == 16) != lay.MdatLarge {
 			return fmt.Errorf("mdat header length %d, MdatLarge=%v", b.HdrLen, lay.MdatLarge)
 		}
 	}
